@@ -37,8 +37,12 @@ def load_known():
     return out
 
 
+CURRENT = []   # the Check objects created in this process (bin/check inspects the last one on failure)
+
+
 class Check:
     def __init__(self, pid, level, explanation, checker_cmd=None):
+        CURRENT.append(self)
         self.pid = pid
         self.level = level
         self.explanation = explanation
@@ -54,6 +58,7 @@ class Check:
         self.exhaustive = None
         self.distinct = set()
         self.executed = set()    # pattern locations of functions evaluated abstractly by R-REG
+        self.regions = 0         # abstract cases evaluated by R-REG
         self.known = [k for k in load_known() if k["property"] == pid and k["kind"] == "known"]
 
     # -- declaring rules ----------------------------------------------------
@@ -160,11 +165,13 @@ class Check:
             discharged=obligations - nviol - 0,
             checker_cmd=self.checker_cmd,
             trusted_base=self.trusted,
-            evaluations=max(obligations, 1),
+            evaluations=max(obligations + self.regions, 1),
             distinct_nontrivial=len(self.distinct),
-            rule="one evaluation = one rule instance (a sink, entry point, write site, region case, "
-                 "compile witness or IR obligation) decided on the source of this run; distinct = distinct "
-                 "(rule, site/case) pairs; positive controls are not counted",
+            rule="evaluations = rule instances decided on the source of this run (entry points, write sites, "
+                 "(function, clause) obligations, compile witnesses, scan sites) plus the abstract regions the region "
+                 "evaluator went through to decide them; distinct_nontrivial counts only the distinct (rule, site / "
+                 "(function, clause)) obligations - conservative, regions are not counted; positive controls are "
+                 "not counted",
             samples=samples,
             rules={rid: dict(text=r["text"], instances=r["instances"], violations=r["violations"],
                              positive_controls_fired=r["controls"]) for rid, r in self.rules.items()},
